@@ -293,7 +293,7 @@ func c11Example(c *Ctx, r *Report) {
 	}
 	// each loop stores stripGlobalsFromExample(Configure()) under the lint's name
 	nput := 0
-	allInstrs(fn, func(in ssa.Instruction) {
+	allInstrsDeep(fn, func(in ssa.Instruction) {
 		mu, ok := in.(*ssa.MapUpdate)
 		if !ok {
 			return
